@@ -36,6 +36,10 @@ type CandidatePair struct {
 	// nomination value (renomination): once the pair is valid it is selected
 	// regardless of pair priorities.
 	renominateOnBindingSuccess bool
+	// deferredNominationValue is the nomination value of that deferred
+	// renomination: it is honoured only while it is still the latest
+	// nomination the controlled agent has accepted.
+	deferredNominationValue uint32
 
 	// stats
 	currentRoundTripTime int64 // in ns
